@@ -30,6 +30,24 @@ ENABLE_TEST_SITES = [
 ALLOWED_MIXED = {(LV, LF, "le"), (LV, LF, "gt"), (LF, LV, "ge"), (LF, LV, "lt")}
 
 
+RID = {"R1": "C19.R1", "R2": "C19.R2", "R4": "C19.R4"}
+
+
+def order_rules(ck, F, rid):
+    """R1 (encoding), R2 (all comparison bodies) and R4 (set_max/current inverse, enable tests mean level <= filter) under
+    another property's rule id: every fast-path test `level <= max level` in the macros, the filters and the bridge is
+    one of these comparisons."""
+    global RID
+    saved = RID
+    RID = {"R1": rid, "R2": rid, "R4": rid}
+    try:
+        enc = r1_encoding(ck, F, "")
+        r2_operators(ck, F, "")
+        r4_published(ck, F, "", enc, census=True)
+    finally:
+        RID = saved
+
+
 def run(ck):
     configs = ["default"] + (["nostd-core", "release"] if ck.tier == "thorough" else [])
     ck.explanation = (
@@ -59,23 +77,23 @@ def run(ck):
 # ------------------------------------------------------------------ R1
 def r1_encoding(ck, F, tag):
     inner = F.adts.get(M + "LevelInner")
-    if not ck.anchor("C19.R1", "LevelInner", inner):
+    if not ck.anchor(RID["R1"], "LevelInner", inner):
         return {}
     enc = {v["name"].upper(): v["discr"] for v in inner["variants"]}
     off = F.consts.get(LF + "::OFF_USIZE")
-    if not ck.anchor("C19.R1", "OFF_USIZE", off):
+    if not ck.anchor(RID["R1"], "OFF_USIZE", off):
         return enc
     enc["OFF"] = off["val"]["int"]
     order = ["TRACE", "DEBUG", "INFO", "WARN", "ERROR", "OFF"]
     if set(enc) != set(order):
-        ck.bad("C19.R1", "variants", inner["span"], "LevelInner variants are %s, expected the five levels" % sorted(enc))
+        ck.bad(RID["R1"], "variants", inner["span"], "LevelInner variants are %s, expected the five levels" % sorted(enc))
         return enc
     for a, b in zip(order, order[1:]):
         k = "enc(%s)<enc(%s)" % (a, b)
         if enc[a] < enc[b]:
-            ck.ok("C19.R1", k, detail="%d < %d" % (enc[a], enc[b]))
+            ck.ok(RID["R1"], k, detail="%d < %d" % (enc[a], enc[b]))
         else:
-            ck.bad("C19.R1", k, inner["span"], "encoding not strictly increasing from TRACE to OFF: %s=%d, %s=%d"
+            ck.bad(RID["R1"], k, inner["span"], "encoding not strictly increasing from TRACE to OFF: %s=%d, %s=%d"
                    % (a, enc[a], b, enc[b]))
     # named constants
     for n in NAMES:
@@ -83,25 +101,25 @@ def r1_encoding(ck, F, tag):
         u = F.consts.get("%s::%s_USIZE" % (LF, n))
         f = F.consts.get("%s::%s" % (LF, n))
         for what, cc in (("Level::" + n, c), ("LevelFilter::%s_USIZE" % n, u), ("LevelFilter::" + n, f)):
-            if not ck.anchor("C19.R1", what, cc):
+            if not ck.anchor(RID["R1"], what, cc):
                 continue
             v = cc.get("val", {}).get("int")
             if v == enc[n]:
-                ck.ok("C19.R1", what, detail="= %d" % v)
+                ck.ok(RID["R1"], what, detail="= %d" % v)
             else:
-                ck.bad("C19.R1", what, cc["path"], "constant evaluates to %r, expected enc(%s)=%d" % (v, n, enc[n]))
+                ck.bad(RID["R1"], what, cc["path"], "constant evaluates to %r, expected enc(%s)=%d" % (v, n, enc[n]))
     offc = F.consts.get(LF + "::OFF")
-    if ck.anchor("C19.R1", "LevelFilter::OFF", offc):
+    if ck.anchor(RID["R1"], "LevelFilter::OFF", offc):
         v = offc.get("val", {}).get("int")
         if isinstance(v, str):
             v = int(v)
         if v is not None and v not in [enc[n] for n in NAMES]:
-            ck.ok("C19.R1", "LevelFilter::OFF distinct", detail="repr %s is none of the level encodings" % v)
+            ck.ok(RID["R1"], "LevelFilter::OFF distinct", detail="repr %s is none of the level encodings" % v)
         else:
-            ck.bad("C19.R1", "LevelFilter::OFF distinct", offc["path"], "OFF evaluates to %r" % (v,))
+            ck.bad(RID["R1"], "LevelFilter::OFF distinct", offc["path"], "OFF evaluates to %r" % (v,))
     # filter_as_usize table
     b = F.body(M + "filter_as_usize")
-    if ck.anchor("C19.R1", "filter_as_usize", b):
+    if ck.anchor(RID["R1"], "filter_as_usize", b):
         rows = {}
         for p in PathEval(b).run():
             if p.end != "return":
@@ -112,10 +130,10 @@ def r1_encoding(ck, F, tag):
         ok = (rows.get(0) is not None and rows[0][0] == "const" and rows[0][2] == enc["OFF"]
               and is_level_enc(rows.get(1), ("field", ("downcast", ("arg", 1), "Some"), "0")))
         if ok:
-            ck.ok("C19.R1", "filter_as_usize table", fn=b.path,
+            ck.ok(RID["R1"], "filter_as_usize table", fn=b.path,
                   detail={"None": show(rows[0]), "Some(l)": show(rows[1])})
         else:
-            ck.bad("C19.R1", "filter_as_usize table", where(b.raw["sp"]),
+            ck.bad(RID["R1"], "filter_as_usize table", where(b.raw["sp"]),
                    "expected None -> OFF_USIZE, Some(l) -> l as usize; got %s" % {k: show(v) for k, v in rows.items()})
     return enc
 
@@ -195,19 +213,19 @@ def r2_operators(ck, F, tag):
         for m, op in CMP_OPS.items():
             p, b = body_of(A, B, "PartialOrd", m)
             key = p.replace(M, "")
-            if not ck.anchor("C19.R2", p, b):
+            if not ck.anchor(RID["R2"], p, b):
                 continue
             n = norm_cmp(ret_of(b))
             want = (op, (kind[B], 2), (kind[A], 1))
             if n == want:
-                ck.ok("C19.R2", key, fn=p, detail="%s  ==>  %s(enc(other), enc(self))" % (show(ret_of(b)), op))
+                ck.ok(RID["R2"], key, fn=p, detail="%s  ==>  %s(enc(other), enc(self))" % (show(ret_of(b)), op))
             else:
-                ck.bad("C19.R2", key, where(b.raw["sp"]),
+                ck.bad(RID["R2"], key, where(b.raw["sp"]),
                        "`%s` is %s, normal form %s; expected %s(enc(other), enc(self))" % (m, show(ret_of(b)), n, op), fn=p)
         # partial_cmp
         p, b = body_of(A, B, "PartialOrd", "partial_cmp")
         key = p.replace(M, "")
-        if ck.anchor("C19.R2", p, b):
+        if ck.anchor(RID["R2"], p, b):
             r = ret_of(b)
             ok = False
             if r and r[0] == "agg" and r[2] == "Some" and len(r[3]) == 1:
@@ -217,27 +235,27 @@ def r2_operators(ck, F, tag):
                 elif A == B and inner[0] == "call" and inner[1].endswith("cmp::Ord::cmp") and inner[2] == (("arg", 1), ("arg", 2)):
                     ok = True   # delegation to Ord::cmp(self, other), itself checked below
             if ok:
-                ck.ok("C19.R2", key, fn=p, detail=show(r))
+                ck.ok(RID["R2"], key, fn=p, detail=show(r))
             else:
-                ck.bad("C19.R2", key, where(b.raw["sp"]), "partial_cmp is %s; expected Some(cmp(enc(other), enc(self)))" % show(r), fn=p)
+                ck.bad(RID["R2"], key, where(b.raw["sp"]), "partial_cmp is %s; expected Some(cmp(enc(other), enc(self)))" % show(r), fn=p)
         if A == B:
             p, b = body_of(A, A, "Ord", "cmp")
             key = p.replace(M, "")
-            if ck.anchor("C19.R2", p, b):
+            if ck.anchor(RID["R2"], p, b):
                 r = ret_of(b)
                 if is_cmp_call(r, A, A):
-                    ck.ok("C19.R2", key, fn=p, detail=show(r))
+                    ck.ok(RID["R2"], key, fn=p, detail=show(r))
                 else:
-                    ck.bad("C19.R2", key, where(b.raw["sp"]), "cmp is %s; expected usize::cmp(enc(other), enc(self))" % show(r), fn=p)
+                    ck.bad(RID["R2"], key, where(b.raw["sp"]), "cmp is %s; expected usize::cmp(enc(other), enc(self))" % show(r), fn=p)
         else:
             p, b = body_of(A, B, "PartialEq", "eq")
             key = p.replace(M, "")
-            if ck.anchor("C19.R2", p, b):
+            if ck.anchor(RID["R2"], p, b):
                 n = norm_cmp(ret_of(b))
                 if n == ("Eq", (kind[B], 2), (kind[A], 1)):
-                    ck.ok("C19.R2", key, fn=p, detail=show(ret_of(b)))
+                    ck.ok(RID["R2"], key, fn=p, detail=show(ret_of(b)))
                 else:
-                    ck.bad("C19.R2", key, where(b.raw["sp"]), "eq is %s; expected enc(self) == enc(other)" % show(ret_of(b)), fn=p)
+                    ck.bad(RID["R2"], key, where(b.raw["sp"]), "eq is %s; expected enc(self) == enc(other)" % show(ret_of(b)), fn=p)
             # an explicit `ne` must be the negation of `eq` for every pair (the provided one is)
             pn, bn = body_of(A, B, "PartialEq", "ne")
             if bn is not None:
@@ -258,9 +276,9 @@ def r2_operators(ck, F, tag):
                     elif neg and t[0] == "call" and t[1].endswith("PartialEq::eq") and set(t[2]) == {("arg", 1), ("arg", 2)}:
                         ok = True
                 if ok:
-                    ck.ok("C19.R2", keyn, fn=pn, detail=show(r))
+                    ck.ok(RID["R2"], keyn, fn=pn, detail=show(r))
                 else:
-                    ck.bad("C19.R2", keyn, where(bn.raw["sp"]), "ne is %s; expected enc(self) != enc(other) (the negation of eq for every pair, OFF included)" % (show(r) if r else "path-dependent"), fn=pn)
+                    ck.bad(RID["R2"], keyn, where(bn.raw["sp"]), "ne is %s; expected enc(self) != enc(other) (the negation of eq for every pair, OFF included)" % (show(r) if r else "path-dependent"), fn=pn)
 
 
 # ------------------------------------------------------------------ R3
@@ -461,7 +479,7 @@ def r4_published(ck, F, tag, enc, census):
     by_enc = {v: k for k, v in enc.items()}
     cur = F.body(LF + "::current")
     setm = F.body(LF + "::set_max")
-    if ck.anchor("C19.R4", "LevelFilter::current", cur):
+    if ck.anchor(RID["R4"], "LevelFilter::current", cur):
         rows = {}
         loads = set()
         for p in PathEval(cur).run():
@@ -475,20 +493,20 @@ def r4_published(ck, F, tag, enc, census):
         for n, v in enc.items():
             k = "current(): %d -> %s" % (v, n)
             if rows.get(v) == n:
-                ck.ok("C19.R4", k)
+                ck.ok(RID["R4"], k)
             else:
-                ck.bad("C19.R4", k, where(cur.raw["sp"]), "MAX_LEVEL == %d reads back as %s, expected %s" % (v, rows.get(v), n))
+                ck.bad(RID["R4"], k, where(cur.raw["sp"]), "MAX_LEVEL == %d reads back as %s, expected %s" % (v, rows.get(v), n))
         extra = {k: v for k, v in rows.items() if k not in enc.values()}
         if extra:
-            ck.bad("C19.R4", "current(): extra rows", where(cur.raw["sp"]), "rows for unknown encodings: %s" % extra)
-    if ck.anchor("C19.R4", "LevelFilter::set_max", setm):
+            ck.bad(RID["R4"], "current(): extra rows", where(cur.raw["sp"]), "rows for unknown encodings: %s" % extra)
+    if ck.anchor(RID["R4"], "LevelFilter::set_max", setm):
         rows = {}
         for p in PathEval(setm).run():
             if p.end != "return":
                 continue
             sw = [c for c in p.calls if c[1].get("path", "").endswith("::swap") or c[1].get("path", "").endswith("::store")]
             if len(sw) != 1 or sw[0][2][0][2] != ("static", M + "MAX_LEVEL"):
-                ck.bad("C19.R4", "set_max writes MAX_LEVEL once", where(setm.raw["sp"]), "expected exactly one swap/store to MAX_LEVEL per path")
+                ck.bad(RID["R4"], "set_max writes MAX_LEVEL once", where(setm.raw["sp"]), "expected exactly one swap/store to MAX_LEVEL per path")
                 continue
             d = [c for c in p.conds if c[0] == ("discr", ("field", ("arg", 1), "0"))]
             if len(d) == 1:
@@ -512,13 +530,13 @@ def r4_published(ck, F, tag, enc, census):
         ok_none = v_none is not None and v_none[0] == "const" and v_none[2] == enc["OFF"]
         ok_some = v_some is not None and v_some[0] == "cast" and v_some[2][0] == "discr"
         if ok_none:
-            ck.ok("C19.R4", "set_max(OFF) stores OFF_USIZE", detail=show(v_none))
+            ck.ok(RID["R4"], "set_max(OFF) stores OFF_USIZE", detail=show(v_none))
         else:
-            ck.bad("C19.R4", "set_max(OFF) stores OFF_USIZE", where(setm.raw["sp"]), "stores %s" % show(v_none))
+            ck.bad(RID["R4"], "set_max(OFF) stores OFF_USIZE", where(setm.raw["sp"]), "stores %s" % show(v_none))
         if ok_some:
-            ck.ok("C19.R4", "set_max(level) stores its discriminant", detail=show(v_some))
+            ck.ok(RID["R4"], "set_max(level) stores its discriminant", detail=show(v_some))
         else:
-            ck.bad("C19.R4", "set_max(level) stores its discriminant", where(setm.raw["sp"]), "stores %s" % show(v_some))
+            ck.bad(RID["R4"], "set_max(level) stores its discriminant", where(setm.raw["sp"]), "stores %s" % show(v_some))
     if not census:
         return
     # census of mixed Level x LevelFilter comparisons at the enable-test sites
@@ -542,13 +560,13 @@ def r4_published(ck, F, tag, enc, census):
             if site in ENABLE_TEST_SITES:
                 seen_sites.add(site)
                 if sig in ALLOWED_MIXED:
-                    ck.ok("C19.R4", key, fn=b.path, detail="means level <= filter (or its negation)")
+                    ck.ok(RID["R4"], key, fn=b.path, detail="means level <= filter (or its negation)")
                 else:
-                    ck.bad("C19.R4", key, where(t["sp"]),
+                    ck.bad(RID["R4"], key, where(t["sp"]),
                            "enable test compares with `%s`: this is not `level <= filter` nor its negation" % c["method"], fn=b.path)
             else:
                 if sig not in ALLOWED_MIXED:
                     ck.note("mixed comparison outside the enable-test table (not armed): %s at %s" % (key, where(t["sp"])))
     for s in ENABLE_TEST_SITES:
         if s not in seen_sites:
-            ck.anchor("C19.R4", s, None)
+            ck.anchor(RID["R4"], s, None)
